@@ -31,7 +31,6 @@ var nonHTMLWriters = map[string]string{
 	modPath + ".Raw$1":                         "templ.Raw: documented unsafe API, the caller vouches for the HTML",
 	modPath + "/runtime.WriteString":           "writes a generator-produced literal (G-LIT) or the development text file's copy of it (C16)",
 	modPath + ".WriteWatchModeString":          "deprecated development-mode literal writer (C16)",
-	modPath + ".renderCSSItemsToBuilder":       "writes CSS rules into a <style> element: operand must be SafeCSS (checked here as TYPE)",
 	modPath + ".(CSSHandler).ServeHTTP":        "serves text/css, not HTML: operand must be SafeCSS (checked here as TYPE)",
 	modPath + ".writeStrings":                  "forwarding wrapper: its call sites are checked instead",
 	modPath + "/safehtml.SanitizeStyleValue$1": "",
@@ -171,6 +170,14 @@ func htmlSinkOperands(c *Ctx, f *flow, rule string) {
 	var fns []*ssa.Function
 	for _, rel := range []string{".", "runtime", "safehtml"} {
 		fns = append(fns, ssaFuncs(c.prog, c.ssaPkg(rel))...)
+	}
+	// collectors of a <style> element's content, recognised by what they are: functions of package templ that write
+	// only into a strings.Builder, and whose every caller (themselves aside) is such a collector or writes the builder's
+	// content between the constants `<style …>` and `</style>`
+	for _, fn := range fns {
+		if isStyleContentCollector(fn, fns, 0) {
+			nonHTMLWriters[ssaFuncName(fn)] = "writes CSS rules into a <style> element: operand must be SafeCSS (checked here as TYPE)"
+		}
 	}
 	wrappers := wrapperParams(f, fns)
 	// unexported functions that are only ever called directly: what they forward from a parameter to a sink is the
@@ -561,4 +568,61 @@ func goTextNeverLiteralMarkup(c *Ctx, rule string) {
 	}
 	c.count("literal_markup_sinks_in_generator", nsink)
 	c.floor(rule, 10)
+}
+
+func isStyleContentCollector(fn *ssa.Function, fns []*ssa.Function, depth int) bool {
+	if fn.Pkg == nil || fn.Pkg.Pkg.Path() != modPath || depth > 2 || (fn.Object() != nil && fn.Object().Exported()) {
+		return false
+	}
+	sinks := findSinks(fn)
+	nb := 0
+	for _, s := range sinks {
+		switch s.Kind {
+		case "Builder.WriteString", "Builder.WriteRune":
+			nb++
+		default:
+			if !strings.HasPrefix(s.Kind, "wrapper:") && !strings.HasPrefix(s.Kind, "delegate:") {
+				return false
+			}
+		}
+	}
+	if nb == 0 {
+		return false
+	}
+	ncallers := 0
+	for _, g := range fns {
+		if g == fn {
+			continue
+		}
+		calls := false
+		for _, b := range g.Blocks {
+			for _, ins := range b.Instrs {
+				if ci, ok := ins.(ssa.CallInstruction); ok && ci.Common().StaticCallee() == fn {
+					calls = true
+				}
+			}
+		}
+		if !calls {
+			continue
+		}
+		ncallers++
+		open, close := false, false
+		for _, s := range findSinks(g) {
+			for _, op := range s.Operands {
+				if k, ok := op.(*ssa.Const); ok && k.Value != nil && k.Value.Kind() == constant.String {
+					txt := constant.StringVal(k.Value)
+					if strings.HasPrefix(txt, "<style") {
+						open = true
+					}
+					if strings.HasPrefix(txt, "</style>") {
+						close = true
+					}
+				}
+			}
+		}
+		if !(open && close) && !isStyleContentCollector(g, fns, depth+1) {
+			return false
+		}
+	}
+	return ncallers > 0
 }
